@@ -333,6 +333,15 @@ class Model():
             )
 
 
+        # Check that every asset of the association is part of the model
+        for field_name in self.get_association_field_names(association):
+            for asset in getattr(association, field_name):
+                if self.get_asset_by_id(asset.id) is not asset:
+                    raise ModelAssociationException(
+                        f"An asset in field {association_type}.{field_name}"
+                        f" is not part of model \"{self.name}\"."
+                    )
+
         # Check for duplicate assets in each field
         left_field_name, right_field_name = \
             self.get_association_field_names(association)
